@@ -130,6 +130,7 @@ class C19(Check):
         return fn(case["sql"], **kw)
 
     def run_case(self, case):
+        C.prepare_inprocess()
         out = Outcome()
         sql = case["sql"]
         eff = C.effective(case)
